@@ -254,7 +254,7 @@ def report(ctx, scs, traces, verdicts):
 def scenarios(ctx):
     scs = []
     base = ctx.seed * 1000
-    recs = [("3B2", 7000), ("NP2.4", 12001)] if ctx.quick else [("3B2", 7000), ("NP2.4", 12001), ("NP2.1", 20011), ("3B2", 3000)]
+    recs = [("3B2", 7013), ("NP2.4", 12001)] if ctx.quick else [("3B2", 7013), ("NP2.4", 12001), ("NP2.1", 20011), ("3B2", 3000)]
     for ri, (kind, ns) in enumerate(recs):
         trains = 2 if ctx.quick else 5
         for ti in range(trains):
